@@ -336,3 +336,25 @@ Section Ceval.
     | CTern c a d => match ceval c with Some v => if truthy v then ceval a else ceval d | None => None end
     end.
 End Ceval.
+
+(* ---- one statement: buf += e; ---- *)
+(* ToString on the values a print of the subset can have *)
+Definition js_tostring (v : jval) : option bstr :=
+  match v with
+  | JStr s => Some s
+  | JNum z => Some (dec_of_Z z)
+  | JBool true => Some t_true
+  | JBool false => Some t_false
+  | JNull => Some t_null
+  | _ => None
+  end.
+(* the text the statement appends to the buffer variable (which must hold a string) *)
+Definition js_append (env : jenv) (buf : bstr) (e : jexpr) : outcome (bstr * jenv) :=
+  v <- js_eval env e ;;
+  match js_tostring v, assoc_s buf (je_vars env) with
+  | Some s, Some (JStr old) => Ok (s, {| je_vars := aset (je_vars env) buf (JStr (old ++ s)); je_data := je_data env |})
+  | _, _ => OutOfModel
+  end.
+(* a value whose printed form both backends define the same way *)
+Definition printable_scalar (v : value) : bool :=
+  match v with VStr _ | VInt _ | VBool _ | VNull => true | _ => false end.
